@@ -132,7 +132,8 @@ class Runner:
         env = dict(os.environ)
         env.pop("JSIM_NO_REEXEC", None)
         self.proc = subprocess.Popen([self.exe, "--server"], stdin=subprocess.PIPE, stdout=subprocess.PIPE,
-                                     stderr=subprocess.DEVNULL, text=True, bufsize=1, env=env, cwd=self.dir)
+                                     stderr=subprocess.DEVNULL, text=True, bufsize=1, env=env, cwd=self.dir,
+                                     preexec_fn=die_with_parent)
         line = self.proc.stdout.readline()
         if not line.startswith("READY"):
             raise RuntimeError("jsim server did not start: %r" % line)
@@ -339,9 +340,12 @@ def ddmin(items, test, budget):
     return cur
 
 
-def minimise(driver, plan, sig, budget=600):
-    """shrink plan while the same violation signature recurs. returns (plan, result, runs)"""
+def minimise(driver, plan, sig, budget=600, wall_s=90):
+    """shrink plan while the same violation signature recurs. returns (plan, result, runs).
+    Bounded both in re-runs and in wall-clock time (a violation that makes every run slow must
+    not make minimisation endless)."""
     runs = [0]
+    t_end = time.time() + wall_s
 
     def fails(p):
         runs[0] += 1
@@ -360,6 +364,8 @@ def minimise(driver, plan, sig, budget=600):
     # 2. ddmin over faults
     if plan.get("knobs", {}).get("explicit") and plan["knobs"].get("faults"):
         def test(fs):
+            if time.time() > t_end:
+                return False
             p = json.loads(json.dumps(plan))
             p["knobs"]["faults"] = fs
             return fails(p)[0]
@@ -368,10 +374,10 @@ def minimise(driver, plan, sig, budget=600):
         plan["knobs"]["faults"] = fs
     # 3. driver-specific greedy shrinking to fixpoint
     progress = True
-    while progress and runs[0] < budget:
+    while progress and runs[0] < budget and time.time() < t_end:
         progress = False
         for cand in driver.shrink(plan):
-            if runs[0] >= budget:
+            if runs[0] >= budget or time.time() > t_end:
                 break
             if fails(cand)[0]:
                 plan = cand
@@ -396,8 +402,19 @@ def known_sigs(prop):
 _worker_driver = None
 
 
+def die_with_parent():
+    """Linux: deliver SIGKILL to this process when its parent dies (no orphaned workers/servers)"""
+    try:
+        import ctypes
+        import signal
+        ctypes.CDLL(None).prctl(1, signal.SIGKILL)
+    except Exception:
+        pass
+
+
 def _worker_init(driver_cls, flavours):
     global _worker_driver
+    die_with_parent()
     _worker_driver = driver_cls()
     # build is already done by the parent; runners start lazily
 
@@ -428,7 +445,7 @@ def check_main(driver_cls, tier, budget_s, base_seed, workers=None, max_runs=Non
     harness_errors = []
     by_sig = {}
     seeds = (mix64(base_seed, prop, i) % (1 << 48) for i in range(10 ** 9))
-    deadline = t0 + budget_s
+    deadline = time.time() + budget_s   # the budget is exploration time; builds come on top
     with mp.Pool(workers, initializer=_worker_init, initargs=(driver_cls, flavours)) as pool:
         def feed():
             n = 0
@@ -448,7 +465,14 @@ def check_main(driver_cls, tier, budget_s, base_seed, workers=None, max_runs=Non
     exit_code = 0
     lines = []
     known_seen = []
+    if os.environ.get("VERIF_VERBOSE"):
+        slow = sorted(results, key=lambda r: -r["wall_us"])[:5]
+        print("[check] batch done: %d runs in %.1fs; slowest runs (s): %s; signatures: %s" % (
+            len(results), time.time() - t0, [(r["seed"], round(r["wall_us"] / 1e6, 2)) for r in slow],
+            {k: len(v) for k, v in by_sig.items()}), file=sys.stderr, flush=True)
     for sig, hits in sorted(by_sig.items()):
+        if os.environ.get("VERIF_VERBOSE"):
+            print("[check] minimising", sig, file=sys.stderr, flush=True)
         seed0, detail0 = sorted(hits)[0]
         plan = driver.gen(seed0, tier)
         mplan, mres, nruns = minimise(driver, plan, sig)
